@@ -837,7 +837,12 @@ func cmdReplay(args []string) {
 	}
 	rp := newReplayer()
 	defer rp.close()
-	outs := rp.run(rec.Harness, rec.Params, [][][2]interface{}{rec.Vector}, 120*time.Second)
+	run := rp
+	if strings.HasPrefix(rec.Harness, "C14_") {
+		run = rp.withRace()
+		rp.raceBin = run.raceBin
+	}
+	outs := run.run(rec.Harness, rec.Params, [][][2]interface{}{rec.Vector}, 120*time.Second)
 	o := outs[0]
 	fmt.Printf("native replay of %s on {%s}: %s %s %s\n", rec.Harness, vecString(rec.Vector), o.Result, o.Assert, o.Detail)
 	if o.Result == "violation" || o.Result == "panic" || o.Result == "crash" {
